@@ -336,11 +336,10 @@ def runCf (so : StrictOpt) (raw : List (Nat × Option (List Sub))) : String :=
       "strict=" ++ bit strict ++ " a=" ++ "".intercalate auths ++ " r=" ++ ",".intercalate served
   | _, _ => "err:adapt"
 
-/-- ONE site block `a.test:443, b.test:8443 { tls { client_auth … } }` is paired with TWO servers.
-    httpcaddyfile's serversFromPairings sets the sni matcher on the `*ConnectionPolicy` it finds in
-    the block's pile — the SAME object for both servers — so the server handled last (`:8443`,
-    `b.test`) overwrites the matcher the first one was given: both end up with `sni ["b.test"]`. -/
-def multiPortPolicyName (_own last : Bytes) : Bytes := last
+/-- ONE site block `a.test:443, b.test:8443 { tls { client_auth … } }` is paired with TWO servers;
+    httpcaddyfile's serversFromPairings gives each server its own copy of the block's connection
+    policy, matched on that server's host names. -/
+def multiPortPolicyName (own _last : Bytes) : Bytes := own
 
 /-- the answer of a well-formed `cf2` case -/
 def runCf2 (subs : List Sub) : String :=
